@@ -24,13 +24,20 @@ TiOk(e) == LET r == e.res IN
        /\ r.re.v = "ok" /\ r.re.desc = r.desc                    \* the encoding decodes to the same description
        /\ \A k \in 0..31 : TiBit(e.w, k) # TiBit(r.be, k) => k \in UnusedBits(r.desc.kind)      \* differs only in unused bits
        /\ r.le = Rev(r.be)                                       \* same in both byte orders up to byte reversal
+\* the same decode through the parser: raw bytes in a big-endian message are the word's big-endian image, in a little-endian
+\* message its reverse; whatever was decoded just before must not matter
+ViaParser(raw, be) == LET w == IF be THEN raw ELSE Rev(raw)  d == TiDec(w) IN
+                      IF d = None THEN [v |-> "refused"] ELSE [v |-> "ok", desc |-> d[1]]
+\* the parser's refusal of a word can also come from its payload (40 zero bytes follow: enough for every fixed-size kind; a
+\* string / raw length of 0; names of length 0), so an accepted word always yields a message
+TiPairOk(e) == e.a = ViaParser(e.raw, e.first_be) /\ e.b = ViaParser(e.raw, ~e.first_be)
 \* ---- beyond the listed properties (./check extras)
 SvcOk(e) == e.res = ServiceName(e.id)
 CtlOk(e) == LET c == ControlOf(e.n) IN e.res.kind = c[1] /\ e.res.value = c[2] /\ e.res.back = e.n
 WidthOk(e) == e.res = TypeWidth(e.t.kind, e.t.w)
 ArgCountOk(e) == e.res = ArgCount(e.p)
 LogLevelOk(e) == e.res = LogCrateLevel(e.mtin)
-Matches(e) == CASE e.op = "htyp" -> HtypOk(e) [] e.op = "msin" -> MsinOk(e) [] e.op = "ti" -> TiOk(e)
+Matches(e) == CASE e.op = "htyp" -> HtypOk(e) [] e.op = "msin" -> MsinOk(e) [] e.op = "ti" -> TiOk(e) [] e.op = "tipair" -> TiPairOk(e)
                 [] e.op = "svc" -> SvcOk(e) [] e.op = "ctl" -> CtlOk(e) [] e.op = "width" -> WidthOk(e) [] e.op = "argcount" -> ArgCountOk(e) [] e.op = "loglevel" -> LogLevelOk(e)
                 [] OTHER -> FALSE
 Init == l = 1 /\ bad = <<>>
